@@ -14,6 +14,8 @@ import (
 // C02: termination with bounded re-entry per position. Online invariant at a
 // probe below every Memoize: active[(nonterminal, position)] <= remaining+2.
 
+var c02cache c01built
+
 func c02case(c GCase, a *run.Acc) {
 	if !a.Begin() {
 		return
@@ -21,11 +23,21 @@ func c02case(c GCase, a *run.Acc) {
 	g := c.G
 	a.Count("cases", 1)
 	env := gram.NewEnvAt(c.In, c.Before())
-	gd := gram.NewGuard(env.Base)
-	gd.MaxEvents, gd.MaxCalls = 150000, 150000
-	b := gram.Build(g, &gram.Hooks{Inside: gd.Inside, Outside: gd.Outside, MemoExpr: c.MemoExpr,
-		// the activation bound is claimed for EVERY memoized parser, also the extra wrappers around sub-expressions
-		UnderMemo: func(e *gram.Expr, p parsley.Parser) parsley.Parser { return gd.Inside(1000+e.ID, p) }})
+	var gd *gram.Guard
+	var b *gram.Built
+	if run.Hash(g.String())%2 == 1 && c02cache.g == g && fmt.Sprint(c02cache.memo) == fmt.Sprint(c.MemoExpr) {
+		// one parser graph for all inputs of the grammar, the way a grammar value is normally used
+		gd, b = c02cache.gd, c02cache.b
+		gd.Reset(env.Base)
+		a.Count("parses on a parser graph that was built for an earlier input", 1)
+	} else {
+		gd = gram.NewGuard(env.Base)
+		gd.MaxEvents, gd.MaxCalls = 150000, 150000
+		b = gram.Build(g, &gram.Hooks{Inside: gd.Inside, Outside: gd.Outside, MemoExpr: c.MemoExpr, ShareLeaves: true,
+			// the activation bound is claimed for EVERY memoized parser, also the extra wrappers around sub-expressions
+			UnderMemo: func(e *gram.Expr, p parsley.Parser) parsley.Parser { return gd.Inside(1000+e.ID, p) }})
+		c02cache = c01built{g: g, memo: c.MemoExpr, gd: gd, b: b}
+	}
 	o := gram.Run(env, b.NTs[c.NT], c.Pos)
 	a.Count("probe_events", int64(gd.Events))
 	a.Count("executions_of_memoized_parsers", int64(gd.Executed))
